@@ -1,6 +1,6 @@
 (* Dispatch.v — single entry point of the extracted model. *)
 From Coq Require Import ZArith List.
-From PV Require Import extract.Cases at4.Flat4 at5.Flat5 extract.Doms spec.FlatSpec.
+From PV Require Import extract.Cases at4.Flat4 at5.Flat5 extract.Doms spec.FlatSpec extract.RxCases.
 Import ListNotations.
 Open Scope Z_scope.
 
@@ -20,5 +20,6 @@ Definition run_case (l : list Z) : list Z :=
   | 31 :: args => run_dec5 args
   | 32 :: args => run_dom5 args
   | 40 :: args => run_spec args
+  | 41 :: args => run_rx args
   | _ => [-1]
   end.
